@@ -66,6 +66,22 @@ def main(argv):
             # the Lean model of the serializer python.rs emits (Pdlv.Py.encBody), compared with serialize() below
             mser = be.model(i, T, [{"k": "pyenc", "v": v} for v in vals])
             mser = mser if isinstance(mser, list) else [None] * len(vals)
+            # theorems python_serializer_writes_reference (root types) / python_child_serializer_writes_reference (children):
+            # hypotheses on this layout, statements evaluated on every value the reference-mode encoder accepts
+            hyps = be.model(i, T, [{"k": "len", "v": {}}])
+            h0 = hyps[0] if isinstance(hyps, list) else {}
+            ser_class = bool((h0.get("pyserwf") and h0.get("refwf")) if not decl.get("parent_id") else h0.get("pychildwf"))
+            run.hist("theorem_hypotheses", "%s:%s" % ("Py.serWfBody&refWfBody" if not decl.get("parent_id") else "Py.serWfChild", ser_class))
+            if ser_class:
+                ide = be.model(i, T, [{"k": "enc", "v": v} for v in vals])
+                for v, ms, ie in zip(vals, mser, ide if isinstance(ide, list) else []):
+                    if ms is not None and ie.get("r") == "ok":
+                        run.count("theorem_instances")
+                        if ms.get("r") != "ok" or ms.get("hex") != ie.get("hex"):
+                            run.violation("corr", "theorem python_%sserializer_writes_reference contradicted by evaluation on %s (model bug)"
+                                          % ("child_" if decl.get("parent_id") else "", T),
+                                          {"pdl": d["text"], "type": T, "value": v, "model": ms, "reference_mode_encoder": ie,
+                                           "corr": "thm:python_serializer_writes_reference"}, found_input=False)
             seeds = []
             for (v, rf), ms in zip(zip(vals, refs), mser):
                 if ms is not None and not (ms.get("r") == "panic" and ms.get("h") in ("badLayout", "badValue")):
